@@ -438,21 +438,82 @@ Definition under (k : str) (f : yv -> bool) (v : yv) : bool :=
 Definition pkg_null_sub : yv -> bool := under kinterfaces iface_null_sub.
 Definition root_null_sub : yv -> bool := under kpackages pkg_null_sub.
 
+(* The strings the loader compiles as regular expressions (RootConfig.Initialize ->
+   Config.validateRegexes at every level, after the levels are merged: every value of
+   include-interface-regex / exclude-interface-regex and every element of exclude-subpkg-regex
+   anywhere in the file; a null element is the empty string).  Looked up per mapping - this is
+   consulted only after [check_root], i.e. when keys are unique up to letter case. *)
+Definition kinc : str := B "include-interface-regex".
+Definition kexc : str := B "exclude-interface-regex".
+Definition ksub : str := B "exclude-subpkg-regex".
+Definition re_elem (v : yv) : list str :=
+  match v with YStr s => [s] | YNull => [[]] | _ => [] end.
+Definition re_scalar (o : option yv) : list str :=
+  match o with Some (YStr s) => [s] | _ => [] end.
+Definition cfg_regexes (m : list (str * yv)) : list str :=
+  (match assoc_ci ksub m with Some (YList l) => flat_map re_elem l | _ => [] end)
+  ++ re_scalar (assoc_ci kexc m) ++ re_scalar (assoc_ci kinc m).
+Definition node_regexes (v : yv) : list str :=
+  match v with YMap m => cfg_regexes m | _ => [] end.
+Definition onode_regexes (o : option yv) : list str :=
+  match o with Some v => node_regexes v | None => [] end.
+Definition iface_regexes (v : yv) : list str :=
+  match v with
+  | YMap m => onode_regexes (assoc_ci kconfig m)
+              ++ match assoc_ci kconfigs m with Some (YList l) => flat_map node_regexes l | _ => [] end
+  | _ => []
+  end.
+Definition pkg_regexes (v : yv) : list str :=
+  match v with
+  | YMap m => onode_regexes (assoc_ci kconfig m)
+              ++ match assoc_ci kinterfaces m with
+                 | Some (YMap im) => flat_map (fun e => iface_regexes (snd e)) im
+                 | _ => []
+                 end
+  | _ => []
+  end.
+Definition tree_regexes (v : yv) : list str :=
+  match v with
+  | YMap m => cfg_regexes m
+              ++ match assoc_ci kpackages m with
+                 | Some (YMap pm) => flat_map (fun e => pkg_regexes (snd e)) pm
+                 | _ => []
+                 end
+  | _ => []
+  end.
+
+(* ... and the same values on the v2 side (exclude / exclude-regex / include-regex of every level) *)
+Definition opt1 (o : option str) : list str := match o with Some s => [s] | None => [] end.
+Definition cfg_v2_regexes (c : v2config) : list str :=
+  (match v_exclude c with Some l => l | None => [] end)
+  ++ opt1 (v_exclude_regex c) ++ opt1 (v_include_regex c).
+Definition ocfg_v2_regexes (o : option v2config) : list str :=
+  match o with Some c => cfg_v2_regexes c | None => [] end.
+Definition iface_v2_regexes (ic : v2iface) : list str :=
+  ocfg_v2_regexes (i_config ic) ++ flat_map cfg_v2_regexes (i_configs ic).
+Definition pkg_v2_regexes (pc : v2pkg) : list str :=
+  ocfg_v2_regexes (p_config pc) ++ flat_map (fun e => iface_v2_regexes (snd e)) (p_ifaces pc).
+Definition v2_regexes (r : v2root) : list str :=
+  cfg_v2_regexes (r_top r) ++ flat_map (fun e => pkg_v2_regexes (snd e)) (r_pkgs r).
+
 (* [nil_default]: whether the default configuration that the file is merged into has a nil
    `_anchors` map.  koanf's maps.Merge then writes into that nil map as soon as the file's
    top-level `_anchors` has one entry (Go run-time panic, before any decoding).  The loader of
-   the tree this model describes has a non-nil default ([load]). *)
-Definition load_with (nil_default : bool) (v : yv) : lresult :=
+   the tree this model describes has a non-nil default ([load]).
+   [re_ok]: which strings Go's regexp package compiles (RE2 syntax; a parameter of the model -
+   in the correspondence it is Go's own regexp.Compile, asked through harness/go/drv_regex). *)
+Definition load_with (nil_default : bool) (re_ok : str -> bool) (v : yv) : lresult :=
   match v with
   | YNull => LoadOk                                   (* empty file *)
   | YMap m =>
     if nil_default && match assoc (B "_anchors") m with Some (YMap (_ :: _)) => true | _ => false end
     then LoadPanic
     else if negb (check_root v) then LoadErr
+    else if negb (forallb re_ok (tree_regexes v)) then LoadErr      (* "invalid `...-regex`: error parsing regexp" *)
     else LoadOk
   | _ => LoadErr
   end.
-Definition load : yv -> lresult := load_with false.
+Definition load : (str -> bool) -> yv -> lresult := load_with false.
 
 (* ------------------------------------------------------------------ the command on a file system *)
 Inductive exit_class := ExitOk | ExitErr.
